@@ -18,7 +18,7 @@ def seeds():
             continue
         c = m.get("confirmed_by_lead", {})
         need = re.sub(r"\s+", " ", str(m.get("needs_to_manifest", m.get("summary", ""))))[:220].replace("|", "/")
-        verdict = (c.get("verdict", "?") + " — " + c.get("detail", c.get("caught_by", "")))[:260].replace("|", "/")
+        verdict = (c.get("verdict", "?") + " — " + c.get("detail", c.get("caught_by", "")) + ((" → " + c["strengthening"]) if c.get("strengthening") else ""))[:420].replace("|", "/")
         rows.append("| seeded/%s | %s | %s | %s |" % (os.path.basename(d), m.get("breaks", "?"), need, verdict))
     return "\n".join(rows)
 p = os.path.join(V, "DESIGN.md"); s = open(p).read()
